@@ -1894,6 +1894,8 @@ CMR_ERROR decomposeTernarySeriesParallel(
 
         if (violatorSubmatrix && pviolatorSubmatrix)
           *pviolatorSubmatrix = violatorSubmatrix;
+        else if (violatorSubmatrix)
+          CMR_CALL( CMRsubmatFree(cmr, &violatorSubmatrix) );
 
         if (stats)
         {
